@@ -113,6 +113,13 @@ fn cmp(cx: &mut CaseCx, what: &str, key: &str, got: &Fp, want: &BigUint, detail:
   if back != Some(*got) {
     cx.viol("C07/encoding/roundtrip", format!("{}: from_repr(to_repr(v)) != v", what), detail());
   }
+  // one integer, one element: the result compares equal to the element decoded from the model value,
+  // and agrees with it on being zero / invertible (a second internal representation of one value shows here)
+  if let Some(w) = fp_from_big(want) {
+    if g == *want && (*got != w || bool::from(got.is_zero()) != want.is_zero() || bool::from(got.invert().is_some()) == want.is_zero()) {
+      cx.viol("C07/value-equality", format!("{}: the result encodes as {} but does not behave as that element (== / is_zero / invert disagree with the element decoded from the same integer)", what, g), detail());
+    }
+  }
 }
 
 fn run_binops(cx: &mut CaseCx, case: &Value) {
@@ -145,6 +152,15 @@ fn run_binops(cx: &mut CaseCx, case: &Value) {
     cmp(cx, "0-(a*b)", "compose/zero-minus-mul", &(Fp::ZERO - prod), &rm::negm(&mprod), d);
     cmp(cx, "(a+b)-(a*b)", "compose/add-minus-mul", &(sum - prod), &rm::subm(&msum, &mprod), d);
     cmp(cx, "(a*b).double()", "compose/double-mul", &prod.double(), &rm::addm(&mprod, &mprod), d);
+    // the iterator forms (Sum / Product over values and over references), incl. sums that cancel to zero
+    let nsum = -(ra + rb);
+    cmp(cx, "[a,b].sum()", "iter/sum", &[ra, rb].into_iter().sum::<Fp>(), &msum, d);
+    cmp(cx, "[&a,&b].sum()", "iter/sum-ref", &[ra, rb].iter().sum::<Fp>(), &msum, d);
+    cmp(cx, "[a,b,-(a+b)].sum()", "iter/sum-cancels", &[ra, rb, nsum].into_iter().sum::<Fp>(), &BigUint::zero(), d);
+    cmp(cx, "[a,-a].sum()", "iter/sum-cancels", &[ra, -ra].into_iter().sum::<Fp>(), &BigUint::zero(), d);
+    cmp(cx, "[a,b,a].sum()", "iter/sum3", &[ra, rb, ra].into_iter().sum::<Fp>(), &rm::addm(&msum, a), d);
+    cmp(cx, "[a,b].product()", "iter/product", &[ra, rb].into_iter().product::<Fp>(), &mprod, d);
+    cmp(cx, "[&a,&b,&a].product()", "iter/product-ref", &[ra, rb, ra].iter().product::<Fp>(), &rm::mulm(&mprod, a), d);
     cx.eval();
     if (ra == rb) != (a == b) {
       cx.viol("C07/binop/eq", "equality of elements disagrees with equality of integers", d());
